@@ -781,6 +781,19 @@ func (fe *FnExec) evalModLoc(env *Env, ml ModLoc) ([]modEntry, error) {
 			if g := fe.P.ghostField(owner, ml.Name); g != nil {
 				return out, addField(g.Name, g.Type)
 			}
+			// ghost state of an interface type, through an implementing pointer
+			var ig *GhostField
+			for _, k := range fe.P.ifaceGhostKeys() {
+				if g := fe.P.Ghosts[k]; g.Name == ml.Name {
+					if ig != nil {
+						return nil, fmt.Errorf("%s: ghost field is ambiguous between interface types", ml.Text)
+					}
+					ig = g
+				}
+			}
+			if ig != nil {
+				return out, fe.addModField(env.st, &out, ref, ig.Owner, ig.Name, ig.Type, ml.Text)
+			}
 			return nil, fmt.Errorf("%s: no such field", ml.Text)
 		}
 		if stt != nil {
